@@ -321,6 +321,120 @@ def free_variable_rule(ctx, rid, core, only=None):
     special_names(ctx, rid, core)
 
 
+def capture_at_creation(ctx, rid, core):
+    """the Lambda arm of the evaluator collects the free names of the body once and looks each of them up in the defining environment
+    (shared with C03: a name bound where the function was written never resolves to a caller's local)"""
+    hev = core.hir_fn(EVAL)
+    # capture at creation
+    m0 = H.main_match(hev["body"], "ast::Expr")
+    lam = None
+    for a in m0["arms"]:
+        if any(H.last(v) == "Lambda" for v in H.pat_variants(a["pat"])):
+            lam = a
+    if lam is None:
+        raise CheckerError("no Lambda arm in evaluate_ast")
+    cfv_calls = [n for n in H.walk(lam["body"]) if H.kind(n) == "Call" and n.get("def") == CFV]
+    lam_binds = {}
+    for st in H.walk(lam["pat"]):
+        if H.kind(st) == "Struct" and (st["res"].get("def") or "").endswith("ast::Expr::Lambda"):
+            lam_binds = {f["name"]: (H.pat_binds(f["pat"]) or [None])[0] for f in st["fields"]}
+    body_v, args_v = lam_binds.get("body"), lam_binds.get("args")
+
+    def rooted_at(n, local):
+        """n is `local`, or a method chain / reference / clone whose innermost receiver is `local`"""
+        n = H.strip(n)
+        for _ in range(12):
+            if H.path_local(n) == local:
+                return True
+            if H.kind(n) == "MethodCall":
+                n = H.strip(n["recv"])
+                continue
+            return False
+        return False
+
+    if len(cfv_calls) != 1:
+        ctx.inst(rid, "capture#from-definition-environment", False if not cfv_calls else None, "the Lambda arm calls collect_free_variables %d time(s)" % len(cfv_calls), H.loc(lam["body"]))
+        ctx.inst(rid, "capture#parameters-excluded", None, "not decided without a single capture analysis call", H.loc(lam["body"]))
+    else:
+        cc = cfv_calls[0]
+        on_body = body_v is not None and H.path_local(cc["args"][0]) == body_v
+        V = H.path_local(cc["args"][1])
+        B = H.path_local(cc["args"][2])
+        # every collected name is looked up in the defining environment: an Environment::get whose key is the element of an iteration over V
+        gets = [x for x in H.walk(lam["body"]) if H.kind(x) == "MethodCall" and x.get("def") == ENV + "get"]
+        looked_up = None
+        for x in H.walk(lam["body"]):
+            if H.kind(x) == "For" and rooted_at(x["iter"], V):
+                v = (H.pat_binds(x["pat"]) or [None])[0]
+                looked_up = any(H.contains_local(g_["args"][0], v) for g_ in gets if any(y is g_ for y in H.walk(x["body"])))
+            if H.kind(x) == "MethodCall" and x["name"] in ("map", "filter_map", "filter", "for_each", "flat_map", "try_for_each") and rooted_at(x["recv"], V) and x["args"] and H.kind(H.strip(x["args"][0])) == "Closure":
+                clo = H.strip(x["args"][0])
+                ps = [bn for p_ in clo.get("params", []) for bn in H.pat_binds(p_)]
+                if any(any(H.contains_local(g_["args"][0], p_) for p_ in ps) for g_ in gets if any(y is g_ for y in H.walk(clo["body"]))):
+                    looked_up = True
+                elif looked_up is None:
+                    looked_up = False
+        verdict1 = False if not gets else (None if looked_up is None else bool(on_body and looked_up))
+        # every collected name is visited: an adapter that can end or thin out the walk over the names leaves later names uncaptured
+        cut = []
+        for x in H.walk(lam["body"]):
+            if H.kind(x) == "MethodCall" and x["name"] in ("take_while", "take", "skip", "skip_while", "step_by", "nth", "map_while") and rooted_at(x["recv"], V):
+                cut.append("%s at %s" % (x["name"], H.loc(x)))
+        if cut:
+            verdict1 = False
+        ctx.inst(rid, "capture#from-definition-environment", verdict1,
+                 "free names of the body are collected once (on the body: %s) and each is looked up in the defining environment: %s" % (on_body, looked_up), H.loc(lam["body"]))
+        # parameters are excluded: the bound set handed to the analysis is seeded from the parameter list
+        seeded = None
+        for x in H.walk(lam["body"]):
+            if H.kind(x) == "For" and args_v is not None and rooted_at(x["iter"], args_v) and any(H.kind(y) == "MethodCall" and y["name"] == "insert" and H.path_local(y["recv"]) == B for y in H.walk(x["body"])):
+                seeded = True
+            if H.kind(x) == "MethodCall" and x["name"] == "extend" and H.path_local(x["recv"]) == B and args_v is not None and any(rooted_at(a_, args_v) for a_ in x["args"]):
+                seeded = True
+            if H.kind(x) == "Let" and H.kind(x.get("pat")) == "Bind" and x["pat"]["name"] == B and x.get("init") is not None:
+                if args_v is not None and rooted_at(x["init"], args_v):
+                    seeded = True
+                elif seeded is None and H.kind(H.strip(x["init"])) == "Call" and H.last(H.strip(x["init"]).get("def") or "") == "new":
+                    seeded = False  # starts empty: must be filled by one of the forms above
+        ctx.inst(rid, "capture#parameters-excluded", seeded, "the bound set handed to the capture analysis is seeded with the parameter names: %s" % seeded, H.loc(lam["body"]))
+
+
+
+def positional_binding(ctx, rid, core):
+    """every parameter is bound on every call: required from its position (or an error), optional from its position or null, the rest
+    parameter to the list of what remains (shared with C03: an unbound parameter would let an outer name of the same spelling show through)"""
+    # positional binding
+    hfc = core.hir_fn(FCALL)
+    param_loop = [lp for lp in [n for n in H.walk(hfc["body"]) if H.kind(n) == "For"] if any(H.kind(x) == "Match" and x["scrut"].get("ty", "").endswith("values::LambdaArg") for x in H.walk(lp["body"]))]
+    if len(param_loop) == 1:
+        lp = param_loop[0]
+        binds = H.pat_binds(lp["pat"])
+        it = S.norm(lp["iter"], S.Env())
+        enum_ok = S.contains_call(it, "enumerate")
+        idxn = binds[0] if binds else None
+        mm = [x for x in H.walk(lp["body"]) if H.kind(x) == "Match" and x["scrut"].get("ty", "").endswith("values::LambdaArg")][0]
+        for aa in mm["arms"]:
+            cls = "|".join(H.last(v) for v in H.pat_variants(aa["pat"]))
+            env = S.Env(roles={idxn: ("idx",), H.param_by_type(hfc, "Vec<blots_core::values::Value>", "args"): ("args",)})
+            ins = [x for x in H.walk(aa["body"]) if H.kind(x) == "MethodCall" and x["name"] == "insert"]
+            val = None
+            if ins:
+                sc = scope.sites(aa["body"], lambda n: n is ins[0], env)
+                val = S.norm(ins[0]["args"][1], sc[0][1]) if sc else None
+            if cls == "Required":
+                ok = val is not None and val[0] == "try" and S.contains(val, ("call", "get", ("args",), ("idx",))) and not S.contains_head(val, "index")
+                d = "value = %s (missing argument is an error, never an out-of-range index)" % (S.show(val)[:120] if val else None)
+            elif cls == "Optional":
+                ok = val == ("call", "unwrap_or", ("call", "get", ("args",), ("idx",)), ("path", CORE + "values::Value::Null"))
+                d = "value = %s" % (S.show(val) if val else None)
+            elif cls == "Rest":
+                ok = val is not None and S.contains(val, ("call", "collect", ("call", "skip", ("args",), ("idx",)))) and S.contains_call(val, "insert_list")
+                d = "value = %s (the remaining arguments as a list)" % (S.show(val)[:140] if val else None)
+            else:
+                ok, d = None, "unknown parameter class"
+            ctx.inst(rid, "bind[%s]" % cls, ok and enum_ok, d, H.loc(aa["body"]))
+
+
 def run(ctx):
     core = ctx.core
     ctx.not_decided += ["that a given closure returns the same value everywhere (the chain deliberately falls back to the caller's environment for names unbound at definition, which the statement excludes by its premise)"]
@@ -378,79 +492,7 @@ def run(ctx):
         ctx.inst("C04.R2", "body-env#decided-by-caller-environment[%s]" % ",".join(sorted({y["name"] for y in reads}) or ["-"]), False,
                  "a condition in FunctionDef::call reads the caller's environment (%s): what the body sees then depends on the call site" % H.loc(c_), H.loc(x))
     ctx.inst("C04.R2", "body-env#call-site-independent", n_cs == 0, "conditions in FunctionDef::call that read the caller's environment (other than the constant `inputs`): %d" % n_cs, H.loc(hfc["body"]))
-    # capture at creation
-    m0 = H.main_match(hev["body"], "ast::Expr")
-    lam = None
-    for a in m0["arms"]:
-        if any(H.last(v) == "Lambda" for v in H.pat_variants(a["pat"])):
-            lam = a
-    if lam is None:
-        raise CheckerError("no Lambda arm in evaluate_ast")
-    cfv_calls = [n for n in H.walk(lam["body"]) if H.kind(n) == "Call" and n.get("def") == CFV]
-    lam_binds = {}
-    for st in H.walk(lam["pat"]):
-        if H.kind(st) == "Struct" and (st["res"].get("def") or "").endswith("ast::Expr::Lambda"):
-            lam_binds = {f["name"]: (H.pat_binds(f["pat"]) or [None])[0] for f in st["fields"]}
-    body_v, args_v = lam_binds.get("body"), lam_binds.get("args")
-
-    def rooted_at(n, local):
-        """n is `local`, or a method chain / reference / clone whose innermost receiver is `local`"""
-        n = H.strip(n)
-        for _ in range(12):
-            if H.path_local(n) == local:
-                return True
-            if H.kind(n) == "MethodCall":
-                n = H.strip(n["recv"])
-                continue
-            return False
-        return False
-
-    if len(cfv_calls) != 1:
-        ctx.inst("C04.R2", "capture#from-definition-environment", False if not cfv_calls else None, "the Lambda arm calls collect_free_variables %d time(s)" % len(cfv_calls), H.loc(lam["body"]))
-        ctx.inst("C04.R2", "capture#parameters-excluded", None, "not decided without a single capture analysis call", H.loc(lam["body"]))
-    else:
-        cc = cfv_calls[0]
-        on_body = body_v is not None and H.path_local(cc["args"][0]) == body_v
-        V = H.path_local(cc["args"][1])
-        B = H.path_local(cc["args"][2])
-        # every collected name is looked up in the defining environment: an Environment::get whose key is the element of an iteration over V
-        gets = [x for x in H.walk(lam["body"]) if H.kind(x) == "MethodCall" and x.get("def") == ENV + "get"]
-        looked_up = None
-        for x in H.walk(lam["body"]):
-            if H.kind(x) == "For" and rooted_at(x["iter"], V):
-                v = (H.pat_binds(x["pat"]) or [None])[0]
-                looked_up = any(H.contains_local(g_["args"][0], v) for g_ in gets if any(y is g_ for y in H.walk(x["body"])))
-            if H.kind(x) == "MethodCall" and x["name"] in ("map", "filter_map", "filter", "for_each", "flat_map", "try_for_each") and rooted_at(x["recv"], V) and x["args"] and H.kind(H.strip(x["args"][0])) == "Closure":
-                clo = H.strip(x["args"][0])
-                ps = [bn for p_ in clo.get("params", []) for bn in H.pat_binds(p_)]
-                if any(any(H.contains_local(g_["args"][0], p_) for p_ in ps) for g_ in gets if any(y is g_ for y in H.walk(clo["body"]))):
-                    looked_up = True
-                elif looked_up is None:
-                    looked_up = False
-        verdict1 = False if not gets else (None if looked_up is None else bool(on_body and looked_up))
-        # every collected name is visited: an adapter that can end or thin out the walk over the names leaves later names uncaptured
-        cut = []
-        for x in H.walk(lam["body"]):
-            if H.kind(x) == "MethodCall" and x["name"] in ("take_while", "take", "skip", "skip_while", "step_by", "nth", "map_while") and rooted_at(x["recv"], V):
-                cut.append("%s at %s" % (x["name"], H.loc(x)))
-        if cut:
-            verdict1 = False
-        ctx.inst("C04.R2", "capture#from-definition-environment", verdict1,
-                 "free names of the body are collected once (on the body: %s) and each is looked up in the defining environment: %s" % (on_body, looked_up), H.loc(lam["body"]))
-        # parameters are excluded: the bound set handed to the analysis is seeded from the parameter list
-        seeded = None
-        for x in H.walk(lam["body"]):
-            if H.kind(x) == "For" and args_v is not None and rooted_at(x["iter"], args_v) and any(H.kind(y) == "MethodCall" and y["name"] == "insert" and H.path_local(y["recv"]) == B for y in H.walk(x["body"])):
-                seeded = True
-            if H.kind(x) == "MethodCall" and x["name"] == "extend" and H.path_local(x["recv"]) == B and args_v is not None and any(rooted_at(a_, args_v) for a_ in x["args"]):
-                seeded = True
-            if H.kind(x) == "Let" and H.kind(x.get("pat")) == "Bind" and x["pat"]["name"] == B and x.get("init") is not None:
-                if args_v is not None and rooted_at(x["init"], args_v):
-                    seeded = True
-                elif seeded is None and H.kind(H.strip(x["init"])) == "Call" and H.last(H.strip(x["init"]).get("def") or "") == "new":
-                    seeded = False  # starts empty: must be filled by one of the forms above
-        ctx.inst("C04.R2", "capture#parameters-excluded", seeded, "the bound set handed to the capture analysis is seeded with the parameter names: %s" % seeded, H.loc(lam["body"]))
-
+    capture_at_creation(ctx, "C04.R2", core)
     capture_by_name(ctx, "C04.R2", core)
 
     # ---------------- R6 the exported function carries its captured values
@@ -502,36 +544,7 @@ def run(ctx):
     wantg = ("if", ("call", "any", ARGSF, ("closure", ("call", "is_rest", ("cp", 0)))), ("ctor", "AtLeast", REQ),
              ("if", ("bin", "Eq", REQ, ("call", "len", ARGSF)), ("ctor", "Exact", REQ), ("ctor", "Between", REQ, ("call", "len", ARGSF))))
     ctx.inst("C04.R3", "get_arity", S.verdict(t, wantg), "classification: %s" % S.show(t)[:300], H.loc(hga["body"]))
-    # positional binding
-    hfc = core.hir_fn(FCALL)
-    param_loop = [lp for lp in [n for n in H.walk(hfc["body"]) if H.kind(n) == "For"] if any(H.kind(x) == "Match" and x["scrut"].get("ty", "").endswith("values::LambdaArg") for x in H.walk(lp["body"]))]
-    if len(param_loop) == 1:
-        lp = param_loop[0]
-        binds = H.pat_binds(lp["pat"])
-        it = S.norm(lp["iter"], S.Env())
-        enum_ok = S.contains_call(it, "enumerate")
-        idxn = binds[0] if binds else None
-        mm = [x for x in H.walk(lp["body"]) if H.kind(x) == "Match" and x["scrut"].get("ty", "").endswith("values::LambdaArg")][0]
-        for aa in mm["arms"]:
-            cls = "|".join(H.last(v) for v in H.pat_variants(aa["pat"]))
-            env = S.Env(roles={idxn: ("idx",), H.param_by_type(hfc, "Vec<blots_core::values::Value>", "args"): ("args",)})
-            ins = [x for x in H.walk(aa["body"]) if H.kind(x) == "MethodCall" and x["name"] == "insert"]
-            val = None
-            if ins:
-                sc = scope.sites(aa["body"], lambda n: n is ins[0], env)
-                val = S.norm(ins[0]["args"][1], sc[0][1]) if sc else None
-            if cls == "Required":
-                ok = val is not None and val[0] == "try" and S.contains(val, ("call", "get", ("args",), ("idx",))) and not S.contains_head(val, "index")
-                d = "value = %s (missing argument is an error, never an out-of-range index)" % (S.show(val)[:120] if val else None)
-            elif cls == "Optional":
-                ok = val == ("call", "unwrap_or", ("call", "get", ("args",), ("idx",)), ("path", CORE + "values::Value::Null"))
-                d = "value = %s" % (S.show(val) if val else None)
-            elif cls == "Rest":
-                ok = val is not None and S.contains(val, ("call", "collect", ("call", "skip", ("args",), ("idx",)))) and S.contains_call(val, "insert_list")
-                d = "value = %s (the remaining arguments as a list)" % (S.show(val)[:140] if val else None)
-            else:
-                ok, d = None, "unknown parameter class"
-            ctx.inst("C04.R3", "bind[%s]" % cls, ok and enum_ok, d, H.loc(aa["body"]))
+    positional_binding(ctx, "C04.R3", core)
     # arity is checked before anything is bound or evaluated
     chk = fc.calls_to(CORE + "functions::FunctionDef::check_arity")
     body_calls = fc.calls_to(EVAL) + fc.calls_to(CORE + "functions::BuiltInFunction::call")
